@@ -1,10 +1,12 @@
-\* C04 thorough: 2 nodes, 2 entry ids, clock 0..3, retention 2 s, 3 CAS.
+\* Negative control: Invalidates WITHOUT the key comparison lets an update of one key supersede a
+\* queued update of another key whose content names it covers. This configuration is EXPECTED to
+\* violate InvalidationSafe.
 CONSTANTS
   N = 2
-  NI = 2
-  NK = 1
-  MaxClock = 3
-  Retention = 2
+  NI = 1
+  NK = 2
+  MaxClock = 1
+  Retention = 0
   T = 1
   MaxCas = 3
   MaxFaults = 0
@@ -18,7 +20,7 @@ CONSTANTS
   GateNodes = {}
   InboxCap = 1
   VersionTest = TRUE
-  KeyTest = TRUE
+  KeyTest = FALSE
   MaxDel = 0
   ObsoleteTimeout = 1
   ConsumeNet = FALSE
@@ -30,6 +32,5 @@ CONSTANTS
   QRounds = 2
 SPECIFICATION Spec
 VIEW view
-INVARIANTS TypeOK TombstonesInvisible InvalidationSafe NoInventedContent SentIsWritten WatcherNeverStale PrefixWatcherNeverStale VersionCountsChanges
-PROPERTIES TombstonesForwarded NoResurrection GCOnlyExpired NoExpiredTombstoneStored OnlyChangesForwarded DeletedStaysDeleted RemovedOnlyWhenObsolete DeletedNotRevived
+INVARIANTS InvalidationSafe
 CHECK_DEADLOCK FALSE
